@@ -10,7 +10,7 @@ import (
 )
 
 // TestPropExhaustive: the quantifier's bounded-exhaustive part.  Every sequence of exactly `depth`
-// operations from {allocate(s), deallocate(s) | s in 4 subscribers} (quick: depth 5, thorough: depth 8;
+// operations from {allocate(s), deallocate(s) | s in 4 subscribers} (quick: depth 5, thorough: depth 8, depth 7 for the two size-rotating logger configurations;
 // all shorter sequences are prefixes, and every oracle runs after every step), up to renaming of
 // subscribers (a subscriber's first mention uses the lowest unused index — the manager treats private
 // addresses symmetrically), on four small configurations.  A listed known finding ends the sequence
@@ -39,7 +39,14 @@ func TestPropExhaustive(t *testing.T) {
 	}
 	seq := make([]op, depth)
 	var idx, ran int64
+	fullDepth := depth
 	for ci, cfg := range cfgs {
+		// the two rotating configurations cost a bubble, a directory and several files per sequence: depth 7 at most
+		depth := fullDepth
+		if cfg.MaxFileSize > 0 && depth > 7 {
+			depth = 7
+		}
+		seq := seq[:depth]
 		var rec func(pos, used int)
 		rec = func(pos, used int) {
 			if pos == depth {
@@ -97,6 +104,7 @@ func TestPropExhaustive(t *testing.T) {
 		rec(0, 0)
 	}
 	vstat.Note("exhaustive_depth", depth)
+	vstat.Note("exhaustive_depth_rotating_configurations", min(depth, 7))
 	vstat.Note("exhaustive_subscribers", subs)
 	vstat.Note("exhaustive_sequences_total", idx)
 	vstat.Exhaustive(true)
